@@ -29,13 +29,46 @@ example : Name.append n!"" n!"x" = n!"x" := by decide
 
 /-! ### Message class names -/
 
+def nmBytesOf : Nat → Nat → List Nat → List Nat
+  | 0, _, acc => acc
+  | k + 1, n, acc => nmBytesOf k (n / 256) ((n % 256) :: acc)
+def nmBytes (n : Name) : List Nat := nmBytesOf (Name.byteLen n) n []
+def nmOfBytes (bs : List Nat) : Name := bs.foldl (fun acc b => acc * 256 + b) 1
+def isUpperB (b : Nat) : Bool := 65 ≤ b && b ≤ 90
+def isLowerB (b : Nat) : Bool := 97 ≤ b && b ≤ 122
+def isDigitB (b : Nat) : Bool := 48 ≤ b && b ≤ 57
+def toUpperB (b : Nat) : Nat := if isLowerB b then b - 32 else b
+def toLowerB (b : Nat) : Nat := if isUpperB b then b + 32 else b
+
+/-- The documented class-name convention for a message without `typeName`: the method with a
+    leading `$/` dropped, split at `/`, `_` and lower/digit→Upper boundaries, each part
+    capitalised (first letter upper, rest lower): textDocument/didSave ↦ TextDocumentDidSave. -/
+def camelParts : Bool → Option Nat → List Nat → List Nat
+  | _, _, [] => []
+  | start, prev, b :: rest =>
+    if b == 47 || b == 95 then camelParts true none rest            -- '/' or '_'
+    else
+      let boundary := start || (isUpperB b && (match prev with | some p => isLowerB p || isDigitB p | none => false))
+      (if boundary then toUpperB b else toLowerB b) :: camelParts false (some b) rest
+
+def deriveClassBase (method : Name) : Name :=
+  let bs := nmBytes method
+  let bs := match bs with | 36 :: 47 :: rest => rest | _ => bs      -- "$/"
+  nmOfBytes (camelParts true none bs)
+
+example : deriveClassBase n!"textDocument/didSave" = n!"TextDocumentDidSave" := by decide +kernel
+example : deriveClassBase n!"$/cancelRequest" = n!"CancelRequest" := by decide +kernel
+
+
 def withSuffix (t s : Name) : Name := if t.endsWith s then t else t.append s
 
 /-- Request class name: the metamodel's `typeName`, suffixed with `Request` when it lacks it. -/
-def Request.cls (r : Request) : Option Name := r.typeName.map (withSuffix · n!"Request")
+def Request.baseName (r : Request) : Name := match r.typeName with | some t => t | none => deriveClassBase r.method
+def Notification.baseName (n : Notification) : Name := match n.typeName with | some t => t | none => deriveClassBase n.method
+def Request.cls (r : Request) : Option Name := some (withSuffix r.baseName n!"Request")
 def Request.respCls (r : Request) : Option Name :=
   r.cls.map (fun c => (c.dropSuffix n!"Request").append n!"Response")
-def Notification.cls (n : Notification) : Option Name := n.typeName.map (withSuffix · n!"Notification")
+def Notification.cls (n : Notification) : Option Name := some (withSuffix n.baseName n!"Notification")
 
 /-- Mapped annotation of a params / registration-options type; an `and` type is the generated
     class named after the message class. -/
